@@ -145,6 +145,10 @@ structure Sym where
   j : Nat
   /-- the layer parameters when the sample was generated -/
   par : Par
+  /-- the parameter changes made on the *running* layer since the reset before the sample was generated, latest first:
+  (extrusion code at the time of the change, the parameters that were replaced).  A new row/column is computed from
+  samples generated under the earlier parameters, so they are part of its identity. -/
+  plog : List (Nat × Par)
 deriving DecidableEq, Repr
 
 def _root_.HcipyVerif.Shift.Where.code : Where → Nat
@@ -174,12 +178,14 @@ structure InfL where
   screen : List Sym
   /-- the sub-pixel offset handed to the interpolation, in length units -/
   sub : V2
+  /-- parameter changes on the running layer since the last reset (see `Sym.plog`) -/
+  plog : List (Nat × Par) := []
 deriving DecidableEq, Repr
 
 /-- `_make_initial_phase_screen`: a temporary finite layer (oversampling 16) draws the screen. -/
 def InfL.initScreen (L : InfL) : InfL :=
-  { L with start := L.rng.pos, hist := 0,
-           screen := (List.range (L.nx * L.ny)).map (fun k => ⟨L.rng.pos, 0, k, L.par⟩),
+  { L with start := L.rng.pos, hist := 0, plog := [],
+           screen := (List.range (L.nx * L.ny)).map (fun k => ⟨L.rng.pos, 0, k, L.par, []⟩),
            rng := L.rng.draw (4 * (L.nx * L.ny)) }
 
 def InfL.pickRng (indep : Bool) (L : InfL) : InfL :=
@@ -199,16 +205,19 @@ def InfL.new (nx ny : Nat) (delta vel : V2) (par : Par) (seed : Nat) : InfL :=
   InfL.fresh nx ny delta vel par ((⟨seed, 0⟩ : Rng).draw (nx + ny))
 
 /-- the setters: `Cn_squared` is only stored (the extrusion multiplies the innovation by `sqrt(Cn_squared)` at the
-time of the extrusion, the matrices are built for unit strength); `L0` rebuilds the matrices, the stencils stay. -/
-def InfL.setCn2 (c : Rat) (L : InfL) : InfL := { L with par := { L.par with cn2 := c } }
-def InfL.setL0 (l : Rat) (L : InfL) : InfL := { L with par := { L.par with L0 := l } }
+time of the extrusion, the matrices are built for unit strength); `L0` rebuilds the matrices, the stencils stay.
+On a running layer the screen stays as it is and later rows/columns use the new value: the change is logged (`plog`). -/
+def InfL.setCn2 (c : Rat) (L : InfL) : InfL :=
+  { L with par := { L.par with cn2 := c }, plog := (L.hist, L.par) :: L.plog }
+def InfL.setL0 (l : Rat) (L : InfL) : InfL :=
+  { L with par := { L.par with L0 := l }, plog := (L.hist, L.par) :: L.plog }
 def InfL.setVel (v : V2) (L : InfL) : InfL := { L with vel := v }
 
 /-- one `_extrude(where)`: draws `ny` (horizontal) or `nx` numbers for the new column/row -/
 def InfL.extrude1 (w : Where) (L : InfL) : InfL :=
   let n := if w.horizontal then L.ny else L.nx
   let h := L.hist * 5 + w.code
-  let new := (List.range n).map (fun j => (⟨L.start, h, j, L.par⟩ : Sym))
+  let new := (List.range n).map (fun j => (⟨L.start, h, j, L.par, L.plog⟩ : Sym))
   { L with hist := h, rng := L.rng.draw n, screen := Shift.extrude w L.nx L.ny new L.screen }
 
 def InfL.extrudeN (w : Where) : Nat → InfL → InfL
